@@ -182,7 +182,7 @@ func CompareSuccess(sc *Scenario, o *ParseObs, checkRest bool) (string, string) 
 func expectedPos(a *PosArg, toks []string) (string, bool) {
 	v := newZero(a.T)
 	for _, t := range toks {
-		if !applyRef(v, a.T, 0, t) {
+		if !applyRef(v, a.T, a.Base, t) {
 			return "", false
 		}
 	}
